@@ -510,7 +510,7 @@ func TestVerifC10(t *testing.T) {
 	}
 	depth := 3
 	if w.Thorough() {
-		depth = 4
+		depth = 6
 	}
 	// shard by first operation
 	for i, first := range c10Ops {
